@@ -9,6 +9,7 @@ CONSTANTS
   Meds = {FALSE, TRUE}
   AllowClear = FALSE
   DeltaOpts = {TRUE, FALSE}
+  PayKinds = {"sim"}
   AsCoded = FALSE
   Withhold = FALSE
 VIEW View
